@@ -140,7 +140,7 @@ fn trees_close(a: &Value, b: &Value, rel: f64) -> bool {
 }
 
 /// first differing path between two serialized trees
-fn first_diff(a: &Value, b: &Value, rel: f64, path: &str) -> Option<String> {
+pub fn first_diff(a: &Value, b: &Value, rel: f64, path: &str) -> Option<String> {
     match (a, b) {
         (Value::Object(x), Value::Object(y)) => {
             for (k, v) in x {
